@@ -119,7 +119,7 @@ func (s *simStore) fault(seam string, ord int64) (sim.Fault, bool) {
 
 // gate implements the request half of a call: yield, partition, planned fault.
 // It returns (execute, err-after, fail-before).
-func (s *simStore) gate(kind string, renew bool) (execute bool, replyLost bool) {
+func (s *simStore) gate(ctx context.Context, kind string, renew bool) (execute bool, replyLost bool, failErr error) {
 	w := s.w
 	var seam string
 	var ord int64
@@ -131,33 +131,46 @@ func (s *simStore) gate(kind string, renew bool) (execute bool, replyLost bool) 
 		seam, ord = "acq", w.ordAcq
 	}
 	zsimrt.Yield("st:req:" + kind)
+	if ctx != nil && ctx.Err() != nil && kind != "wait" {
+		// like a networked store, the seam refuses a request whose context is already
+		// done (WaitForVersionChange reports that itself)
+		w.e.Probe("storage_call_with_done_context")
+		return false, false, ctx.Err()
+	}
+	if renew {
+		if d := time.Duration(w.c.Knob("cas_latency_ns", 0)); d > 0 {
+			// a slow but healthy storage: every renewal takes this long
+			w.e.FaultFired("renew_slow")
+			zsimrt.Sleep("st:latency", d)
+		}
+	}
 	if w.partitioned[s.node] {
 		w.e.FaultFired("partition_request_lost")
 		w.e.Logf("st n%d %s#%d partitioned", s.node, kind, ord)
-		return false, false
+		return false, false, errInjected
 	}
 	if f, ok := s.fault(seam, ord); ok {
 		switch f.Kind {
 		case "req_lost":
 			w.e.FaultFired(seam + "_request_lost")
 			w.e.Logf("st n%d %s#%d request lost", s.node, kind, ord)
-			return false, false
+			return false, false, errInjected
 		case "reply_lost":
 			w.e.FaultFired(seam + "_reply_lost")
 			w.e.Logf("st n%d %s#%d reply lost", s.node, kind, ord)
-			return true, true
+			return true, true, nil
 		case "stall":
 			w.e.FaultFired(seam + "_stall")
 			zsimrt.Sleep("st:stall", time.Duration(f.D))
 		}
 	}
-	return true, false
+	return true, false, nil
 }
 
 func (s *simStore) Create(ctx context.Context, r kvs.Record) (string, error) {
-	exec, lost := s.gate("create", false)
+	exec, lost, ferr := s.gate(ctx, "create", false)
 	if !exec {
-		return "", errInjected
+		return "", ferr
 	}
 	who := zsimrt.CurrentName()
 	ver, err := s.base.Create(ctx, r)
@@ -173,9 +186,9 @@ func (s *simStore) Create(ctx context.Context, r kvs.Record) (string, error) {
 }
 
 func (s *simStore) Get(ctx context.Context, key string) (kvs.Record, error) {
-	exec, lost := s.gate("get", false)
+	exec, lost, ferr := s.gate(ctx, "get", false)
 	if !exec {
-		return kvs.Record{}, errInjected
+		return kvs.Record{}, ferr
 	}
 	r, err := s.base.Get(ctx, key)
 	zsimrt.Yield("st:resp:get")
@@ -191,9 +204,9 @@ func (s *simStore) GetMany(ctx context.Context, keys ...string) ([]*kvs.Record, 
 
 func (s *simStore) Put(ctx context.Context, r kvs.Record) (kvs.Record, error) {
 	openAtInvoke := s.w.openTenures()
-	exec, lost := s.gate("put", false)
+	exec, lost, ferr := s.gate(ctx, "put", false)
 	if !exec {
-		return kvs.Record{}, errInjected
+		return kvs.Record{}, ferr
 	}
 	rr, err := s.base.Put(ctx, r)
 	if err == nil && r.Key == lockKey {
@@ -213,9 +226,9 @@ func (s *simStore) PutMany(ctx context.Context, rs []kvs.Record) error {
 func (s *simStore) CasByVersion(ctx context.Context, r kvs.Record) (kvs.Record, error) {
 	unlockedAtInvoke := s.w.onRenewAttempt(r.Version)
 	openAtInvoke := s.w.openTenures()
-	exec, lost := s.gate("cas", true)
+	exec, lost, ferr := s.gate(ctx, "cas", true)
 	if !exec {
-		return kvs.Record{}, errInjected
+		return kvs.Record{}, ferr
 	}
 	rr, err := s.base.CasByVersion(ctx, r)
 	s.w.e.Logf("st n%d cas -> %s", s.node, errStr(err))
@@ -233,9 +246,9 @@ func (s *simStore) CasByVersion(ctx context.Context, r kvs.Record) (kvs.Record, 
 }
 
 func (s *simStore) Delete(ctx context.Context, key string) error {
-	exec, lost := s.gate("delete", false)
+	exec, lost, ferr := s.gate(ctx, "delete", false)
 	if !exec {
-		return errInjected
+		return ferr
 	}
 	who := zsimrt.CurrentName()
 	err := s.base.Delete(ctx, key)
@@ -248,9 +261,9 @@ func (s *simStore) Delete(ctx context.Context, key string) error {
 }
 
 func (s *simStore) WaitForVersionChange(ctx context.Context, key, ver string) error {
-	exec, lost := s.gate("wait", false)
+	exec, lost, ferr := s.gate(ctx, "wait", false)
 	if !exec {
-		return errInjected
+		return ferr
 	}
 	s.w.e.Probe("storage_wait")
 	err := s.base.WaitForVersionChange(ctx, key, ver)
@@ -573,6 +586,11 @@ func (w *world) acquire(ts *taskState, lk gsync.Locker, op sim.Op, i int) {
 			e.Violate("C04", "acquired_with_dead_ctx", "%s: LockWithCtx returned nil although its context was cancelled before the call", ts.name)
 		}
 		w.enter(ts)
+		if op.V == "cancel_after" && cancel != nil {
+			// the context only governs the acquisition: it may end while the lock is held
+			cancel()
+			e.Probe("acquisition_ctx_cancelled_while_holding")
+		}
 		if op.F {
 			// holder death (C05 S2): stay inside for D, then the node is cut off and the task never unlocks
 			zsimrt.Sleep("task:hold", time.Duration(op.D))
